@@ -100,6 +100,7 @@ type Gen struct {
 	abstracted map[string]bool
 	inlined  map[string]bool
 	usedStubs map[string]bool
+	assumedPosts map[string]bool // `assumes` clauses of the function under verification (reported as assumptions)
 	usedContracts map[string]bool
 	unfoldQueue []string
 	errs []string
@@ -146,7 +147,7 @@ func (w *World) newGen(fn *ssa.Function, con *Contract) *Gen {
 		declared: map[string]bool{}, strLits: map[string]string{}, tags: map[string]int{},
 		oblCount: map[string]int{}, assumed: map[string]bool{}, recSeen: map[string]bool{},
 		fieldIDs: map[string]int{}, heapArrs: map[string]string{}, abstracted: map[string]bool{},
-		inlined: map[string]bool{}, usedStubs: map[string]bool{}, usedContracts: map[string]bool{},
+		inlined: map[string]bool{}, usedStubs: map[string]bool{}, assumedPosts: map[string]bool{}, usedContracts: map[string]bool{},
 		freshTerms: map[string]bool{}, dirty: map[string]bool{}}
 	if fn != nil {
 		g.fnName = w.relName(fn)
